@@ -30,6 +30,18 @@ CLAIMED = {
    technique="bounded exhaustive enumeration of type-checked Aiken functions x valid argument encodings on the real machine; oracle: classification of the machine's error (structural errors and panics forbidden)",
    text="Every function body of the 14 strata (each accepted by the real type checker) is compiled and run on the full cartesian product of valid encodings of its parameter types (Data parameters: the whole Data universe); each of the ~3.9M evaluations is classified: TypeMismatch, NonFunctionalApplication, OpenTermEvaluated, MissingCaseBranch, NotAConstant, NonConstrScrutinized and the other structural machine errors, or a panic, are violations; DivideByZero, EmptyList, DeserialisationError and explicit failure are the permitted ways to stop.",
    note="the candidate space is the typed enumerator's (C01's) rather than all untyped candidates filtered by the checker; opaque types and aiken/builtin wrappers beyond the constant-folding family are not in the fragment yet"),
+ "C12": dict(engine="h_proj", design_ref="DESIGN.md §4 C12",
+   technique="bounded exhaustive enumeration of (type, Data) pairs over a depth-bounded Data universe plus the single-change mutation ball of every valid value; three-way comparison of the real schema validator, the compiled on-chain decoder and the documented encoding",
+   text="For each of 22 types (primitives, Option/List nestings, tuples, List<Pair> maps, enums, multi-constructor ADTs, records, a generic box, a recursive tree) a scratch project built by the real Project exports an encoder and a decoder (`expect _: T = d`); for every Data value of the depth-2 universe (1.7k quick, 236k thorough) and every single-change mutation (tag, arity, field order, leaf kind, list/constr/map confusion) of every valid value: Parameter::validate against the exported schema accepts it iff the compiled decoder succeeds iff the documented encoding accepts it; the compiled up-cast of every valid value must produce the documented encoding; validation may not panic.",
+   note="trusted: h_lang::ak::from_data / to_data (documented Data encoding); types with @tag / @list decorators, opaque wrappers and aliases are not in the universe yet; top-level Pair parameters are out of scope"),
+ "C17": dict(engine="h_proj", design_ref="DESIGN.md §4 C17",
+   technique="exhaustive enumeration of test-set configurations (all subsets up to a size bound x trace levels) with an ownership audit of every reference-counted allocation entering the parallel section (hook H2): the audit decides the independence relation under which one schedule represents all; plus re-runs under 1/2/3/16 threads",
+   text="For every subset of size <= 2 (3 thorough) and the whole set of 16 collision-prone tests (unit and property tests sharing list/pair/nested/derived module constants, a hoisted generic function, user types, fuzzers; expected failures) under each trace level, hook H2 hands the harness the exact Vec<Test> about to enter rayon; every Rc reachable from each test's program(s) is walked: allocations of different tests must be pairwise disjoint, every allocation's strong count must equal the number of references from inside its own test (nothing the main thread keeps co-owns it), and no unit test may still carry its typed-AST assertion. Each test's reported result must be identical in every selection, and a spanning family is re-run in child processes with RAYON_NUM_THREADS in {1,2,3,16} and compared.",
+   note="rayon's schedules themselves are not enumerated (rayon is invisible to loom/shuttle): the audit establishes that worker transitions commute, rayon's order-preserving collect is trusted; Fuzzer.type_info (Rc<Type> shared with the AST) is excluded because Test::run never touches it; H1's thread-local copies are dropped before counting owners (they exist only under the hooks feature)"),
+ "C18": dict(engine="h_proj", design_ref="DESIGN.md §4 C18",
+   technique="explicit-state breadth-first search over blueprint states (JSON text, re-parsed at every step as the CLI does) whose transitions are the real Blueprint::apply_parameter; invariants evaluated in every state, including behavioural equality with the function applied to the same parameters",
+   text="Initial state: the blueprint the real Project::build writes for five purpose-built validators with 1-3 parameters (Int, ByteArray, enum, List<Int>, Option<Int>, tuple, record, Data, the same type twice) whose two handlers accept exactly the redeemer built from all parameter values. Operations at each state: apply_parameter with conforming values of the next parameter's type, the mutation ball of one of them, and values of the other parameters' types. Invariants in every state: a non-conforming value is rejected without panic and leaves the blueprint unchanged; a conforming one is accepted and the remaining parameters are exactly the tail for every handler entry; the JSON round trip is the identity; the published hash is an independent blake2b-224 of 03||compiledCode; sibling handlers share one program; every completion with remaining conforming values accepts exactly the redeemer built from all parameters (mint and spend); complete states equal apply_params_to_script with all parameters at once; nothing can be applied beyond the last parameter.",
+   note="Plutus V3 only (ProjectConfig rejects other versions); script contexts are minimal hand-built Data (the handlers ignore everything but purpose and redeemer); also serves the blueprint/hash half of C08"),
  "C14": dict(engine="h_lang", design_ref="DESIGN.md §4 C14",
    technique="bounded exhaustive enumeration of Aiken functions, each type-checked and compiled under all 9 Tracing values and evaluated on the full argument product; oracle: the nine builds agree on failure/value",
    text="Every function of the strata (the trace-operand stratum at its full bound; strata with trace, ?, expect, fail, todo, casts one size smaller; the rest two sizes smaller in the quick tier) is type-checked and generated under each of the 3 scopes x 3 levels of Tracing and run on every argument tuple; the verdict and result constant must equal the all-silent build's. The evidence reports how many functions compile to different code under verbose tracing (non-vacuity).",
